@@ -723,7 +723,7 @@ theorem fB_step (X : Ext) (n : Nat) (hS : FS X n) (hB : FB X n) : FB X (n+1) := 
     simp only [eraseB, execB, Option.some.injEq, Prod.mk.injEq] at h; obtain ⟨rfl, rfl⟩ := h
     simp only [blockIn] at hag
     cases m with
-    | zero => simp [funcB, execFB] at hrun
+    | zero => simp [execFB] at hrun
     | succ k =>
       simp only [funcB, execFB, Option.some.injEq, Prod.mk.injEq] at hrun
       obtain ⟨rfl, rfl⟩ := hrun
